@@ -32,6 +32,13 @@ def run(ctx):
             return Case('%s k=%d seqs2 is seqs (%d sequences)' % (base, k, len(refs)), lambda: fn(refs, max_edits=k, seqs2=refs),
                         ('api_brute_cross_lev', [k, refs, refs]), seqs=refs, seqs2=refs, site='nn.symdel[seqs2 is seqs]',
                         nontrivial=lambda exp: any(d > 0 for q, r, d in exp))
+        if kind.startswith('symdel[n_cpu='):
+            # the worker count is an execution option: the answer is that of the default call (queries not a multiple of n_cpu included)
+            ncpu = int(kind[len('symdel[n_cpu='):-1])
+            fn = nn.symdel if len(refs) % 2 else nn.nearest_neighbor
+            return Case('%s k=%d n_cpu=%d refs=%d queries=%d' % (fn.__name__, k, ncpu, len(refs), len(qs)),
+                        lambda: fn(refs, max_edits=k, seqs2=qs, n_cpu=ncpu), ('api_brute_cross_lev', [k, refs, qs]),
+                        seqs=refs, seqs2=qs, site='nn.symdel[seqs2,n_cpu=%d]' % ncpu, nontrivial=nontriv(refs, qs))
         if kind == 'symdel':
             th = lambda: nn.symdel(refs, max_edits=k, seqs2=qs)
             model, site = 'api_brute_cross_lev', 'nn.symdel[seqs2]'
@@ -63,6 +70,20 @@ def run(ctx):
         for kind in ('symdel', 'nearest_neighbor', 'SymdelDB'):
             cases.append(mk(kind, refs, qs, 1 + t % 3))
         cases.append(mk('LookupDB', refs, qs, 1 + t % 2))
+    # (a2) references of ONE length (or two lengths two apart) queried with their rotations / shifted copies: at k >= 2 the hit is a
+    # deletion at one end plus an insertion at the other, through an intermediate whose length no reference has
+    rot = lambda s, j: s[j:] + s[:j]
+    for t in range(8 if ctx.quick else 60):
+        L = rng.choice([3, 4, 5, 6])
+        al = rng.choice(['AC', 'ACD', 'ACDEFGHIKLMNPQRSTVWY'])
+        refs = list(dict.fromkeys(''.join(rng.choice(al) for _ in range(L)) for _ in range(rng.randint(2, 8))))
+        if t % 4 == 3:
+            refs += [''.join(rng.choice(al) for _ in range(L + 2)) for _ in range(2)]
+        qs = [rot(s, rng.choice([1, L - 1])) for s in refs] + [s[1:] + rng.choice(al) for s in refs[:3]] + [rng.choice(refs)]
+        rng.shuffle(qs)
+        ctx.count('uniform_length_references_rotated_queries')
+        for kind in ('LookupDB', 'symdel', 'SymdelDB'):
+            cases.append(mk(kind, refs, qs, 2))
     ctx.exhaustive = True
     # (b) random repertoire pairs
     for t in range(60 if ctx.quick else 1500):
@@ -76,6 +97,8 @@ def run(ctx):
         kind = ['symdel', 'nearest_neighbor', 'SymdelDB', 'LookupDB'][t % 4]
         if t % 10 == 9:
             kind = ['symdel[same object]', 'nearest_neighbor[same object]'][t // 10 % 2]
+        if t % 10 == 4:
+            kind = 'symdel[n_cpu=%d]' % rng.choice([2, 3, 3, 4])
         if kind == 'LookupDB':
             k = min(k, 2)
             refs = [s for s in refs if len(s) <= 12] or ['CAF']
@@ -149,6 +172,9 @@ def replay(ctx, obj):
     site = obj.get('site') or ''
     if 'LookupDB' in site:
         th = lambda: nn.LookupDB(refs).lookup(qs, max_edits=k)
+    elif 'n_cpu=' in site:
+        ncpu = int(site.split('n_cpu=')[1].rstrip(']'))
+        th = lambda: nn.symdel(refs, max_edits=k, seqs2=qs, n_cpu=ncpu)
     else:
         th = lambda: nn.symdel(refs, max_edits=k, seqs2=qs)
     run_cases(ctx, [Case('replay', th, ('api_brute_cross_lev', [k, refs, qs]), seqs=refs, seqs2=qs, site=site)])
